@@ -376,6 +376,15 @@ func (im *image) write(name string) error {
 	return os.WriteFile(name+".log", im.log, 0o644)
 }
 
+func allZero(b []byte) bool {
+	for _, x := range b {
+		if x != 0 {
+			return false
+		}
+	}
+	return true
+}
+
 type prober struct {
 	dir    string
 	memKB  int
@@ -535,6 +544,41 @@ func crashProbe(args []string) error {
 				tv = append(tv, t)
 			}
 			ev["torn"] = tv
+		}
+		// torn variant of the NEXT page write when it extends the db file: the file ends in the middle of the page
+		// (an in-place page write torn between old and new sectors is only probed on request - VERIF_TORN_MID - no
+		// engine without page checksums survives that in general)
+		if torn && k+1 < len(ops) && ops[k+1].Kind == "P" {
+			off := int(ops[k+1].Page) * 4096
+			tv := []interface{}{}
+			if off >= len(im.db) {
+				ti := im.clone()
+				if off > len(ti.db) {
+					ti.db = append(ti.db, make([]byte, off-len(ti.db))...)
+				}
+				ti.db = append(ti.db, ops[k+1].Data[:2048]...)
+				t := p.probe(ti, 0, map[string]interface{}{"io": k, "cut": 2048})
+				t["cut"] = 2048
+				tv = append(tv, t)
+			} else if off+4096 <= len(im.db) && allZero(im.db[off:off+4096]) {
+				// the page lies in a hole of the file (a higher page was written first): the second half of the page
+				// reads as zeros, but the read is not short, so nothing tells the engine that the page is incomplete
+				// (known finding KF-C01-torn-page-inside-file)
+				ti := im.clone()
+				copy(ti.db[off:], ops[k+1].Data[:2048])
+				t := p.probe(ti, 0, map[string]interface{}{"io": k, "cut": -2048})
+				t["cut"] = -2048 // (negative: torn INSIDE the file)
+				tv = append(tv, t)
+			} else if os.Getenv("VERIF_TORN_MID") != "" && off+4096 <= len(im.db) {
+				ti := im.clone()
+				copy(ti.db[off:], ops[k+1].Data[:2048])
+				t := p.probe(ti, 0, map[string]interface{}{"io": k, "cut": -2048})
+				t["cut"] = -2048
+				tv = append(tv, t)
+			}
+			if len(tv) > 0 {
+				ev["torn"] = tv
+			}
 		}
 		tw.Emit(ev)
 	}
